@@ -101,7 +101,7 @@ Lemma expand_trait_inv v attr h t items :
     items = [ITrait (gen_trait_def (ta_opts a) TTrait MGeneric (h_attrs h) (Some (h_attrs h)) (h_vis h) (t_name t) tg
                                    (t_colon t) (t_supers t) fns MRawTrait)] ++ deleg ++
             [IImpl (mkImpl (filter is_async_trait (h_attrs h)) false
-                           (mkGen true (p_of_list (impl_params true false (tg_params tg)))
+                           (mkGen true (p_of_list (trait_impl_params (tg_params tg)))
                                   (where_of_list (mk_pred (impl_t_bounds a ca (t_name t) tg) :: p_items (tg_where tg))))
                            (Some ([TId (t_name t)] ++ print_arguments false (tg_params tg)))
                            impl_path_toks methods)].
@@ -118,7 +118,7 @@ Proof.
      Ok ([ITrait (gen_trait_def (ta_opts (eff_trait_attr v a)) TTrait MGeneric (h_attrs h) (Some (h_attrs h)) (h_vis h) (t_name t) (trait_tg t)
                                    (t_colon t) (t_supers t) fns MRawTrait)] ++ deleg ++
             [IImpl (mkImpl (filter is_async_trait (h_attrs h)) false
-                           (mkGen true (p_of_list (impl_params true false (tg_params (trait_tg t))))
+                           (mkGen true (p_of_list (trait_impl_params (tg_params (trait_tg t))))
                                   (where_of_list (mk_pred (impl_t_bounds (eff_trait_attr v a) (trait_contains_async (t_items t)) (t_name t) (trait_tg t)) :: p_items (tg_where (trait_tg t)))))
                            (Some ([TId (t_name t)] ++ print_arguments false (tg_params (trait_tg t))))
                            impl_path_toks methods)])) = Ok items).
@@ -298,6 +298,28 @@ Lemma analyze_fn_deps_nodeps tg s o deps tg' :
 Proof.
   unfold analyze_fn_deps. intros ->.
   destruct (p_items (s_inputs s)) as [|[x r m c|x p ty] rest]; intros H; try discriminate H; injection H as <- <-; auto.
+Qed.
+
+(** ** [impl<..Param>] of an entraited trait: lifetimes first, then the application's parameter, then the rest
+    without defaults *)
+Definition nonlife (p : gparam) : bool := negb (is_life p).
+
+Lemma strip_default_life p : is_life (strip_default p) = is_life p.
+Proof. unfold strip_default. destruct (is_life p) eqn:E; [exact E|]. unfold is_life in *. cbn [gp_kind]. exact E. Qed.
+
+Lemma filter_nonlife_life (l : list gparam) : filter nonlife (filter is_life l) = [].
+Proof. induction l as [|p l IH]; [reflexivity|]. cbn [filter]. destruct (is_life p) eqn:E; [|exact IH]. cbn [filter]. unfold nonlife at 1. rewrite E. exact IH. Qed.
+
+Lemma filter_nonlife_strip (l : list gparam) : filter nonlife (map strip_default (filter nonlife l)) = map strip_default (filter nonlife l).
+Proof.
+  induction l as [|p l IH]; [reflexivity|]. cbn [filter]. destruct (nonlife p) eqn:E; [|exact IH].
+  cbn [map filter]. unfold nonlife at 1. rewrite strip_default_life. fold (nonlife p). rewrite E. f_equal. exact IH.
+Qed.
+
+Lemma filter_nonlife_trait_impl_params ps :
+  filter nonlife (trait_impl_params ps) = impl_t_param false :: map strip_default (filter nonlife ps).
+Proof.
+  unfold trait_impl_params. rewrite !filter_app, filter_nonlife_life. fold nonlife. rewrite filter_nonlife_strip. reflexivity.
 Qed.
 
 (** the parameters handed to [fix_fn_param_idents]: the generated receiver(s), then the source
